@@ -79,6 +79,8 @@ def run(ctx):
     from .. import tagged as _tagged
     from ..gen import Gen as _Gen, Opts as _Opts, module_text as _module_text
     _tagged.run_c16(ctx, ctx.rng, ctx.n(60, 800), impl, ['ber', 'der'], _Gen, _Opts, _module_text)
+    from .. import scripted as _scripted
+    _scripted.per_small_alphabet_prefixes(ctx)
     # "a valid encoding" is not only the encoder's output: the other BER forms of a message (indefinite lengths, segmented strings, padded
     # lengths), read by the same version and by an OLDER version of the type (unknown additions inside).  Whenever the receiver accepts the
     # whole form, every strict prefix of it must be the decode error.
